@@ -143,6 +143,9 @@ pub struct DfsStats {
     pub pruned: u64,
     pub max_depth: usize,
     pub frontier_empty: bool,
+    /// Panics of the code under test while applying a round or computing the state key:
+    /// (what, panic, history of shape indices).  Callers turn these into findings.
+    pub panics: Vec<(&'static str, crate::mc::PanicInfo, Vec<usize>)>,
 }
 
 /// Depth-bounded DFS over histories with de-duplication on (depth, canonical key).
@@ -186,13 +189,40 @@ pub fn dfs(
             }
             let r = build(sh, hist.len(), (hist.len() as u16) * 16);
             let mut next = st.clone();
-            apply(&mut next, &r);
+            if let Err(p) = crate::mc::catch(|| apply(&mut next, &r)) {
+                // the aggregator itself panicked: report, do not explore beyond this round
+                idx.push(si);
+                if stats.panics.len() < 16 {
+                    stats.panics.push(("apply", p, idx.clone()));
+                }
+                idx.pop();
+                stats.transitions += 1;
+                continue;
+            }
             stats.transitions += 1;
             hist.push(r);
             idx.push(si);
             stats.max_depth = stats.max_depth.max(hist.len());
-            let cont = visit(&next, hist, idx);
-            let k = key(&next);
+            let cont = match crate::mc::catch(|| visit(&next, hist, idx)) {
+                Ok(c) => c,
+                Err(p) => {
+                    // a query made by the oracle panicked inside the code under test
+                    if stats.panics.len() < 16 {
+                        stats.panics.push(("query", p, idx.clone()));
+                    }
+                    true
+                }
+            };
+            let k = match crate::mc::catch(|| key(&next)) {
+                Ok(k) => k,
+                Err(p) => {
+                    // a getter panicked: the history itself is the key (no merging)
+                    if stats.panics.len() < 16 {
+                        stats.panics.push(("query", p, idx.clone()));
+                    }
+                    crate::mc::hash64(&(0xdead_u16, idx.clone()))
+                }
+            };
             let fresh = seen.insert((hist.len(), k));
             if fresh {
                 stats.states += 1;
